@@ -79,18 +79,128 @@ class Constants:
         return literal_fraction(self.rel, v, self.src), n
 
     def n_args(self):
+        """N_ARGS_FUNCTION, in insertion order, by restricted evaluation of its module-level assignment
+        (literals folded through dict displays with ** unpacking, dict.fromkeys, dict(...), dict union, simple
+        dict comprehensions over a literal sequence, and names of other such module-level constants)."""
         n = self.assign.get('N_ARGS_FUNCTION')
-        if n is None or not isinstance(n.value, ast.Dict):
-            raise TranslationError(self.rel, n or self.tree, 'N_ARGS_FUNCTION dict literal not found')
+        if n is None:
+            raise TranslationError(self.rel, self.tree, 'N_ARGS_FUNCTION assignment not found')
+        v = self.fold(n.value, ('N_ARGS_FUNCTION',))
+        if type(v) is not dict:
+            raise TranslationError(self.rel, n, 'N_ARGS_FUNCTION is not a plain dict')
         out = []
-        for k, v in zip(n.value.keys, n.value.values):
-            if not (isinstance(k, ast.Constant) and isinstance(k.value, str) and isinstance(v, ast.Constant)
-                    and isinstance(v.value, int) and not isinstance(v.value, bool) and v.value >= 0):
+        for k, a in v.items():
+            if not (type(k) is str and type(a) is int and a >= 0):
                 raise TranslationError(self.rel, n, 'N_ARGS_FUNCTION entries must be "NAME": <non-negative int>')
-            if k.value in [a for a, _ in out]:
-                raise TranslationError(self.rel, n, 'duplicate key %s' % k.value)
-            out.append((k.value, v.value))
+            out.append((k, a))
         return out, n
+
+    def fold(self, e, busy=()):
+        """Value of a constant expression; anything outside the recognised family raises TranslationError."""
+        rel = self.rel
+
+        def scalar(x):
+            return type(x) in (str, int, float, bool) or x is None
+
+        if isinstance(e, ast.Constant):
+            if not scalar(e.value):
+                raise TranslationError(rel, e, 'unsupported constant %r' % (e.value,))
+            return e.value
+        if isinstance(e, ast.UnaryOp) and isinstance(e.op, ast.USub) and isinstance(e.operand, ast.Constant) \
+                and type(e.operand.value) in (int, float):
+            return -e.operand.value
+        if isinstance(e, (ast.List, ast.Tuple)):
+            vals = []
+            for x in e.elts:
+                if isinstance(x, ast.Starred):
+                    sv = self.fold(x.value, busy)
+                    if type(sv) not in (list, tuple):
+                        raise TranslationError(rel, x, 'unpacking of a non-sequence')
+                    vals += list(sv)
+                else:
+                    vals.append(self.fold(x, busy))
+            return vals if isinstance(e, ast.List) else tuple(vals)
+        if isinstance(e, ast.Dict):
+            d = {}
+            literal_keys = []
+            for k, x in zip(e.keys, e.values):
+                if k is None:                       # ** unpacking: later entries override, first position is kept
+                    sv = self.fold(x, busy)
+                    if type(sv) is not dict:
+                        raise TranslationError(rel, x, '** unpacking of a non-dict')
+                    d.update(sv)
+                else:
+                    kk = self.fold(k, busy)
+                    if not scalar(kk):
+                        raise TranslationError(rel, k, 'unhashable / non-scalar key')
+                    if kk in literal_keys:
+                        raise TranslationError(rel, k, 'duplicate key %r' % (kk,))
+                    literal_keys.append(kk)
+                    d[kk] = self.fold(x, busy)
+            return d
+        if isinstance(e, ast.Name):
+            if e.id in busy:
+                raise TranslationError(rel, e, 'constant %s refers to itself' % e.id)
+            a = self.assign.get(e.id)
+            if a is None:
+                raise TranslationError(rel, e, 'unknown name `%s` in a constant table' % e.id)
+            return self.fold(a.value, busy + (e.id,))
+        if isinstance(e, ast.BinOp) and isinstance(e.op, ast.BitOr):
+            a, b = self.fold(e.left, busy), self.fold(e.right, busy)
+            if type(a) is dict and type(b) is dict:
+                return {**a, **b}
+            raise TranslationError(rel, e, '`|` on non-dicts')
+        if isinstance(e, ast.BinOp) and isinstance(e.op, ast.Add):
+            a, b = self.fold(e.left, busy), self.fold(e.right, busy)
+            if type(a) is type(b) and type(a) in (list, tuple):
+                return a + b
+            raise TranslationError(rel, e, '`+` on non-sequences in a constant table')
+        if isinstance(e, ast.Call):
+            f = e.func
+            if isinstance(f, ast.Attribute) and f.attr == 'fromkeys' and isinstance(f.value, ast.Name) and f.value.id == 'dict' \
+                    and 'dict' not in self.assign and not e.keywords and len(e.args) in (1, 2):
+                ks = self.fold(e.args[0], busy)
+                val = self.fold(e.args[1], busy) if len(e.args) == 2 else None
+                if type(ks) not in (list, tuple) or not all(scalar(k) for k in ks) or not scalar(val):
+                    raise TranslationError(rel, e, 'dict.fromkeys needs a literal sequence of scalar keys and a scalar value')
+                return dict.fromkeys(ks, val)
+            if isinstance(f, ast.Name) and f.id == 'dict' and 'dict' not in self.assign and len(e.args) <= 1:
+                d = {}
+                if e.args:
+                    src = self.fold(e.args[0], busy)
+                    if type(src) is dict:
+                        d.update(src)
+                    elif type(src) in (list, tuple) and all(type(p) in (list, tuple) and len(p) == 2 and scalar(p[0]) for p in src):
+                        d.update((p[0], p[1]) for p in src)
+                    else:
+                        raise TranslationError(rel, e, 'dict(...) of something that is not a dict or a sequence of pairs')
+                for kw in e.keywords:
+                    if kw.arg is None:
+                        sv = self.fold(kw.value, busy)
+                        if type(sv) is not dict or not all(type(k) is str for k in sv):
+                            raise TranslationError(rel, e, 'dict(**x) of a non-dict')
+                        d.update(sv)
+                    else:
+                        d[kw.arg] = self.fold(kw.value, busy)
+                return d
+            raise TranslationError(rel, e, 'unrecognised call `%s` in a constant table' % ast.unparse(e)[:60])
+        if isinstance(e, ast.DictComp) and len(e.generators) == 1:
+            g = e.generators[0]
+            if isinstance(g.target, ast.Name) and not g.ifs and not g.is_async and g.target.id not in self.assign:
+                seq = self.fold(g.iter, busy)
+                if type(seq) in (list, tuple) and all(scalar(x) for x in seq):
+                    def item(x, val):
+                        if isinstance(x, ast.Name) and x.id == g.target.id:
+                            return val
+                        if isinstance(x, ast.Constant):
+                            return self.fold(x, busy)
+                        raise TranslationError(rel, x, 'unsupported expression in a dict comprehension')
+                    d = {}
+                    for val in seq:
+                        d[item(e.key, val)] = item(e.value, val)
+                    return d
+            raise TranslationError(rel, e, 'unsupported dict comprehension')
+        raise TranslationError(rel, e, 'unsupported expression %s in a constant table' % type(e).__name__)
 
 
 class ExprTr:
@@ -193,6 +303,44 @@ def stores_in(fn, local_ok, np_names=('np',)):
     return out
 
 
+def always_returns(stmts):
+    if not stmts:
+        return False
+    last = stmts[-1]
+    if isinstance(last, (ast.Return, ast.Raise)):
+        return True
+    return isinstance(last, ast.If) and always_returns(last.body) and always_returns(last.orelse)
+
+
+def lower_returns(stmts, rel='opytimizer/core/node.py'):
+    """Early returns -> if/else: in  `if c: A` + rest  where A always returns, rest is the else branch (and
+    symmetrically when only the else branch always returns).  A pure restructuring of control flow: the set of
+    paths, the order of evaluation on each path and what each path returns are unchanged.  Statements that follow a
+    block that always returns are unreachable and rejected."""
+    out = []
+    for i, s in enumerate(stmts):
+        rest = stmts[i + 1:]
+        if isinstance(s, ast.If):
+            body, orelse = list(s.body), list(s.orelse)
+            if rest and always_returns(body) and always_returns(orelse):
+                raise TranslationError(rel, rest[0], 'unreachable statements after an if/else that always returns')
+            if rest and always_returns(body):
+                new = ast.If(test=s.test, body=lower_returns(body, rel), orelse=lower_returns(orelse + rest, rel))
+                out.append(ast.copy_location(new, s))
+                return out
+            if rest and orelse and always_returns(orelse):
+                new = ast.If(test=s.test, body=lower_returns(body + rest, rel), orelse=lower_returns(orelse, rel))
+                out.append(ast.copy_location(new, s))
+                return out
+            new = ast.If(test=s.test, body=lower_returns(body, rel), orelse=lower_returns(orelse, rel))
+            out.append(ast.copy_location(new, s))
+        else:
+            if isinstance(s, (ast.Return, ast.Raise)) and rest:
+                raise TranslationError(rel, rest[0], 'unreachable statements after a return')
+            out.append(s)
+    return out
+
+
 def nodeops(repo):
     """-> dict with the pieces of Gen/NodeOps.v; raises TranslationError."""
     rel = 'opytimizer/core/node.py'
@@ -207,7 +355,7 @@ def nodeops(repo):
     if len(a.args) != 1 or a.vararg or a.kwarg or a.kwonlyargs or a.defaults or fn.decorator_list:
         raise TranslationError(rel, fn, '_evaluate must take exactly one positional parameter')
     node = a.args[0].arg
-    body = fn_body(fn)
+    body = lower_returns(fn_body(fn), rel)
     # if node: ... else: return None
     def none_test(t):
         # `if node:` (Node defines neither __bool__ nor __len__, checked below) or `if node is not None:`
@@ -216,13 +364,23 @@ def nodeops(repo):
         return (isinstance(t, ast.Compare) and isinstance(t.left, ast.Name) and t.left.id == node and len(t.ops) == 1
                 and isinstance(t.ops[0], ast.IsNot) and isinstance(t.comparators[0], ast.Constant) and t.comparators[0].value is None)
 
-    if not (len(body) == 1 and isinstance(body[0], ast.If) and none_test(body[0].test)):
-        raise TranslationError(rel, fn, 'expected `if %s:` as the only statement' % node)
+    def is_none_test(t):
+        # `if not node:` / `if node is None:`
+        if isinstance(t, ast.UnaryOp) and isinstance(t.op, ast.Not):
+            return none_test(t.operand)
+        return (isinstance(t, ast.Compare) and isinstance(t.left, ast.Name) and t.left.id == node and len(t.ops) == 1
+                and isinstance(t.ops[0], ast.Is) and isinstance(t.comparators[0], ast.Constant) and t.comparators[0].value is None)
+
+    if not (len(body) == 1 and isinstance(body[0], ast.If) and (none_test(body[0].test) or is_none_test(body[0].test))):
+        raise TranslationError(rel, fn, 'expected `if %s:` / `if not %s: return None` as the only top-level decision' % (node, node))
     top = body[0]
-    if not (len(top.orelse) == 1 and isinstance(top.orelse[0], ast.Return)
-            and (top.orelse[0].value is None or (isinstance(top.orelse[0].value, ast.Constant) and top.orelse[0].value.value is None))):
+    top_body, top_orelse = (top.body, top.orelse) if none_test(top.test) else (top.orelse, top.body)
+    if not (len(top_orelse) == 1 and isinstance(top_orelse[0], ast.Return)
+            and (top_orelse[0].value is None or (isinstance(top_orelse[0].value, ast.Constant) and top_orelse[0].value.value is None))):
         raise TranslationError(rel, top, 'the branch for a missing node must be `return None`')
-    stmts = list(top.body)
+    if not top_body:
+        raise TranslationError(rel, top, 'no code for an existing node')
+    stmts = list(top_body)
 
     def child_assign(s):
         """x = _evaluate(node.left) -> ('x', 0); node.right -> 1"""
